@@ -54,12 +54,13 @@ FLOORS = {"argument_snapshot": 3000, "probe_compared": 250,
 SHARDS = {"quick": 16, "thorough": 64}
 TIMEOUT = {"quick": 900, "thorough": 6 * 3600}
 FAMILIES = ["place", "chain", "minimise", "bitfield", "objects", "route",
-            "minimise_related"]
+            "minimise_related", "route_related"]
+RELATED = ("minimise_related", "route_related")
 
 
 def plan(tier):
     n = 320 if tier == "quick" else 25000
-    return [(f, n) for f in FAMILIES]
+    return [(f, n if f != "route_related" else n // 8) for f in FAMILIES]
 
 
 # ------------------------------------------------------------- generators
@@ -125,9 +126,39 @@ def related_tables(rng):
     return t1, t2
 
 
+def related_routes(rng):
+    """(small, big): a route on a machine of a few chips, then a route with
+    the same search radius on a much larger machine whose single net grows a
+    tree of hundreds of chips.  Whatever the router remembers from the small
+    machine (search spirals, distance tables, per-size scratch state) is
+    wrong for the big one."""
+    radius = rng.choice([3, 8, 20, 20])
+    res = {"Cores": 18, "SDRAM": 1000, "SRAM": 100}
+
+    def problem(w, h, nv, placer, torus):
+        dead_links = [] if torus else par.wrap_links(w, h)
+        m = dict(w=w, h=h, res=dict(res), exc={}, dead_chips=[],
+                 dead_links=sorted(dead_links))
+        vertices = [(i, {"Cores": 17}) for i in range(nv)]
+        stragglers = rng.sample(range(nv), min(nv, 6))
+        nets = [(0, list(range(1, nv)), 1.0),
+                (stragglers[0], stragglers[1:] or [0], 1.0)]
+        return dict(machine=m, vertices=vertices, nets=nets, constraints=[],
+                    seed=rng.randrange(1 << 30), placer=placer,
+                    minimiser="none", radius=radius, path="chain")
+    sw, sh = rng.choice([(1, 1), (2, 2), (2, 3), (3, 3), (1, 4)])
+    small = problem(sw, sh, rng.randint(1, sw * sh), "sequential",
+                    rng.random() < .5)
+    side = rng.randint(24, 40)
+    big = problem(side, side, rng.randint(190, 260),
+                  rng.choice(["hilbert", "sequential", "breadth_first"]),
+                  rng.random() < .5)
+    return small, big
+
+
 def gen(cls, idx, rng, tier):
     history = []
-    fams = [f for f in FAMILIES if f != "minimise_related"]
+    fams = [f for f in FAMILIES if f not in RELATED]
     for _ in range(rng.randint(3, 15)):
         fam = cls if rng.random() < .4 and cls in fams else rng.choice(fams)
         history.append((gen_call(fam, rng, tier), rng.random() < .6))
@@ -137,6 +168,12 @@ def gen(cls, idx, rng, tier):
         history.insert(rng.randrange(len(history) + 1),
                        (("minimise", t1, fn, None), rng.random() < .5))
         probe = ("minimise", t2, rng.choice(["oc", "mt"]), None)
+    elif cls == "route_related":
+        small, big = related_routes(rng)
+        history = history[:4]
+        history.insert(rng.randrange(len(history) + 1),
+                       (("route", small), False))
+        probe = ("route", big)
     else:
         probe = gen_call(cls, rng, tier)
     return dict(history=history, probe=probe, seed=rng.randrange(1 << 30))
